@@ -948,7 +948,11 @@ func finishRace(cfg *RunCfg, rep *Reporter, cov *Cov, ev *Evidence, prop string)
 		rep.Inconclusive("binary built without -race")
 	}
 	reports := readRaceLogs()
-	ev.Coverage["race_reports_raw"] = len(reports)
+	ev.Coverage["race_reports_raw"] = len(reports) + harnessRaces
+	ev.Coverage["race_reports_without_klevdb_frame"] = harnessRaces
+	if harnessRaces > 0 {
+		rep.Inconclusive(fmt.Sprintf("%d race reports involve only harness code", harnessRaces))
+	}
 	seen := map[string]bool{}
 	for _, rr := range reports {
 		if seen[rr.frames] {
